@@ -93,6 +93,12 @@ def corpus(tier):
                     reach={'bob': {'direct': reach, 'delay': delay, 'pierce': reach in ('blackhole',)}},
                     stop={'transfer': 0, 'op': op, 'k': k, 'plus_iter': 0, 'fallback_at': 25.0},
                     chunk_delay=0.01))
+    # the uploader's file connection is under way when the stop lands (it arrives, with its ticket, after the stop)
+    for op in OPS:
+        for late in (1.0, 5.0, 70.0):
+            for k in range(3, 12):
+                out.append(base_plan(stop={'transfer': 0, 'op': op, 'k': k, 'plus_iter': 0, 'fallback_at': 25.0},
+                                     late_f=late, chunk_delay=0.01))
     # management cycles while the connect of the target hangs: second transfer completing + status flaps
     for op in OPS:
         for t in (0.3, 2.0, 8.0, 12.0, 30.0):
@@ -200,6 +206,8 @@ def generate(rng, index, tier):
                             'then_delay': rng.uniform(2.0, 8.0) if then == 'slow' else None}
     if plan['stop']['op'] in ('abort', 'remove') and rng.random() < 0.15:
         plan['stop']['pre_pause'] = rng.choice([0.0, 0.01, 1.0, 6.0])
+    if target['dir'] == 'down' and rng.random() < 0.15:
+        plan['late_f'] = rng.choice([0.5, 2.0, 5.0, 30.0, 70.0])
     if target['dir'] == 'down' and rng.random() < 0.2:
         plan['offer_on_stop'] = rng.choice([0.0, 0.001, 0.05, 0.3])
         plan['slow_listener'] = {'state': rng.choice(('CLOSING', 'CLOSED')), 'delay': rng.choice([0.01, 0.1, 0.5])}
@@ -509,6 +517,11 @@ def _run(world: World, plan):
             beh = {'chunk_delay': plan.get('chunk_delay', 0.0), 'chunk': 4096, 'queue_delay': plan.get('queue_delay', 0.05)}
             if plan.get('dup_request') and t['id'] == target_spec['id']:
                 beh['dup_request'] = plan['dup_request']
+            if plan.get('late_f') is not None and t['id'] == target_spec['id']:
+                # the uploader is slow to open the file connection after our reply; once it has decided to open it, it
+                # does (the stop cannot be known to it): the connection and its ticket arrive after the stop
+                beh['f_delay'] = float(plan['late_f'])
+                beh['f_under_way'] = True
             brk = plan.get('dl_break') if t['id'] == target_spec['id'] else None
             if brk:
                 beh['per_attempt'] = [{'send_bytes': int(brk['after']), 'after_send': 'abort'}]
@@ -624,6 +637,16 @@ def _run(world: World, plan):
         await feed
         await asyncio.sleep(max(W - (loop.time() - t0), 1.0))
         results['snap1'] = {f: getattr(tr, f, None) for f in FIELDS}
+        if plan.get('late_f') is not None and target_spec['dir'] == 'down':
+            ul = xpeers[target_spec['peer']].uploads.get(remote_paths.get(target_spec['id']))
+            kept = 0
+            for flink in (ul.f_links if ul is not None else []):
+                sim_conn = flink.writer.transport.conn
+                if sim_conn.opened_at > t0 and sim_conn.b is not None and not sim_conn.b._closed:
+                    kept += 1
+                elif sim_conn.opened_at > t0:
+                    world.probe('file_connection_after_stop_refused')
+            results['late_f_kept'] = kept
         results['state1'] = tr.state.VALUE.name
         results['in_list'] = tr in tm.transfers
 
@@ -680,6 +703,8 @@ def _run(world: World, plan):
             for a in world.net.connect_attempts:
                 if a['src'] == 'alice' and a['dst'] == peer and a['time'] > t0:
                     world.violate('C06.connect_after', **facts, what='connect attempt')
+        if results.get('late_f_kept'):
+            world.violate('C06.connect_after', **facts, what='file connection of the stopped transfer kept open')
         # (3) fields
         s0, s1 = results['snap0'], results['snap1']
         for f in FIELDS:
